@@ -122,7 +122,8 @@ Qed.
 (* the text layer *)
 Theorem text_run c text :
   e2e_run c text = e2e_core c (Accept.csv_raw_header text) (map Csv.parse (tl (phys_lines text))) /\
-  crashes c (map Csv.parse (tl (phys_lines text))) = false.
+  (Forall (fun ln => (N.of_nat (length ln) <= Csv.field_limit)%N) (tl (phys_lines text)) ->
+   crashes c (map Csv.parse (tl (phys_lines text))) = false).
 Proof. split; [reflexivity|apply (no_csv_error c text)]. Qed.
 
 (* two runs, each with its own sampler states and shuffles, give the same table *)
